@@ -7,7 +7,9 @@ A  theorems in Props/C18 over the GENERATED kernels (translate/kernels.py -> Gen
    wrappers add no failure; hyperu/1F1 kernels never trip an assert.  For EVERY interpretation of exp/log/sqrt/lgamma.
 B  the generated definitions executed at Float (Driver/Kernels.lean) against the numba kernels, bit for bit.
 C  oracle: the real kernels against direct numerical integration of the stated tilted densities
-   (harness/kernels_oracle.py): skip-or-finite, support clauses exact, means within 5 %, closed forms to 1e-12.
+   (harness/kernels_oracle.py): skip-or-finite, support clauses exact, means within 5 %, closed forms to 1e-12;
+   and the code's closed-form algebra re-run with EXACT special functions (mpmath) against the same quadrature
+   (means 1e-8, variances 1e-5): isolates formula errors from the accuracy of the Laplace approximation.
 """
 
 import math
@@ -282,6 +284,70 @@ def one_vector(o, v, res):
             o.viol("closed-form-not-exact:mutation_block_projection", f"mutation_block_projection({t_i!r}, {t_j!r}): phase {pb[0]!r} mean {mn!r}", "mutation_block_projection", [t_i, t_j])
 
 
+def exact_algebra(o, rng, n, res):
+    """The code's own closed-form algebra (pure-Python `py_func`s of the current source) with mpmath's exact
+    2F1 / 1F1 / U in place of the Laplace approximations must reproduce the quadrature moments: means to 1e-8,
+    variances to 1e-5 (they are differences of large terms), phase probabilities to 1e-8."""
+    lg = kc.logu
+    worst = {}
+
+    def cmp(name, comp, got, true, args, tol):
+        e = rel(got, true)
+        worst[f"{name}.{comp}"] = max(worst.get(f"{name}.{comp}", 0.0), e)
+        if not e <= tol:
+            o.viol(f"algebra-not-exact:{name}.{comp}",
+                   f"{name}{tuple(args)} with EXACT special functions gives {comp} = {got!r}, quadrature {true!r} "
+                   f"(relative error {e:.2e}): the closed-form algebra around the special function is wrong", name, args)
+
+    with ko.ExactSpecial() as X:
+        for _ in range(n):
+            a_i, a_j = lg(rng, 1, 40), lg(rng, 1, 40)
+            b_i, b_j, mu = lg(rng, 1e-3, 1), lg(rng, 1e-3, 1), lg(rng, 1e-3, 1)
+            y = float(rng.choice([0, 1, 2, 5, 12]))
+            t_i = float(a_j / b_j * np.exp(rng.normal() * 0.5))
+            t_j = float(a_i / b_i * np.exp(rng.normal() * 0.5))
+            res.evaluations += 8
+            try:
+                for name, args, true, comps in (
+                    ("rootward_moments", [t_j, a_i, b_i, y, mu], ko.rootward_true(t_j, a_i, b_i, y, mu), ((1, 0, "mn", 1e-8), (2, 1, "va", 1e-5))),
+                    ("leafward_moments", [t_i, a_j, b_j, y, mu], ko.leafward_true(t_i, a_j, b_j, y, mu), ((1, 0, "mn", 1e-8), (2, 1, "va", 1e-5))),
+                    ("sideways_moments", [t_i, a_j, b_j, y, mu], ko.sideways_true(t_i, a_j, b_j, y, mu), ((1, 0, "mn", 1e-8), (2, 1, "va", 1e-5))),
+                    ("moments", [a_i, b_i, a_j, b_j, y, mu], ko.moments_true(a_i, b_i, a_j, b_j, y, mu),
+                     ((1, 0, "mn_i", 1e-8), (2, 1, "va_i", 1e-5), (3, 2, "mn_j", 1e-8), (4, 3, "va_j", 1e-5))),
+                    ("unphased_moments", [a_i, b_i, a_j, b_j, y, mu], ko.unphased_true(a_i, b_i, a_j, b_j, y, mu),
+                     ((1, 0, "mn_i", 1e-8), (2, 1, "va_i", 1e-5), (3, 2, "mn_j", 1e-8), (4, 3, "va_j", 1e-5))),
+                    ("mutation_moments", [a_i, b_i, a_j, b_j, y, mu], ko.mutation_moments_true(a_i, b_i, a_j, b_j, y, mu),
+                     ((0, 0, "mn", 1e-8), (1, 1, "va", 1e-5))),
+                    ("mutation_unphased_moments", [a_i, b_i, a_j, b_j, y, mu], ko.mutation_unphased_true(a_i, b_i, a_j, b_j, y, mu),
+                     ((0, 0, "pr", 1e-8), (1, 1, "mn", 1e-8), (2, 2, "va", 1e-5))),
+                    ("mutation_sideways_moments", [t_i, a_j, b_j, max(y, 1.0), mu], ko.mutation_sideways_true(t_i, a_j, b_j, max(y, 1.0), mu),
+                     ((0, 0, "pr", 1e-8), (1, 1, "mn", 1e-8), (2, 2, "va", 1e-5))),
+                ):
+                    got = X.call(name, *args)
+                    if true is None:
+                        continue
+                    for gi, ti, comp, tol in comps:
+                        if comp.startswith("va"):
+                            # sq - mn^2 in doubles: relative error ~ eps * mn^2 / va on top of the algebra
+                            tol = tol + 1e-11 * true[ti - 1] ** 2 / true[ti]
+                        cmp(name, comp, float(got[gi]), true[ti], args, tol)
+                # the mutation kernels that reuse a node kernel
+                r = X.call("mutation_rootward_moments", t_j, a_i, b_i, y, mu)
+                tr = ko.rootward_true(t_j, a_i, b_i, y, mu)
+                cmp("mutation_rootward_moments", "mn", float(r[0]), (tr[0] + t_j) / 2, [t_j, a_i, b_i, y, mu], 1e-8)
+                cmp("mutation_rootward_moments", "va", float(r[1]), tr[1] / 3 + (tr[0] - t_j) ** 2 / 12, [t_j, a_i, b_i, y, mu],
+                    1e-5 + 1e-11 * tr[0] ** 2 / tr[1])
+                r = X.call("mutation_leafward_moments", t_i, a_j, b_j, y, mu)
+                tr = ko.leafward_true(t_i, a_j, b_j, y, mu)
+                cmp("mutation_leafward_moments", "mn", float(r[0]), (tr[0] + t_i) / 2, [t_i, a_j, b_j, y, mu], 1e-8)
+                cmp("mutation_leafward_moments", "va", float(r[1]), tr[1] / 3 + (tr[0] - t_i) ** 2 / 12, [t_i, a_j, b_j, y, mu],
+                    1e-5 + 1e-11 * tr[0] ** 2 / tr[1])
+            except (AssertionError, ZeroDivisionError, ValueError) as e:
+                o.viol("algebra-exact-mode-raises", f"exact-mode evaluation raised {type(e).__name__}: {e}", "moments",
+                       [a_i, b_i, a_j, b_j, y, mu])
+    o.stats["exact_algebra_worst"] = worst
+
+
 def robustness_y0(o, rng, n, res):
     """Outside EP's range (a dated mutation's block has y >= 1): y = 0 in mutation_sideways_* (finding C18-a)."""
     for _ in range(n):
@@ -326,7 +392,14 @@ def run(ctx):
         one_vector(o, v, res)
         if k < 3:
             res.sample({kk: repr(vv) for kk, vv in v.items()})
+    exact_algebra(o, ctx.rng(17), ctx.n(25, 600), res)
     robustness_y0(o, ctx.rng(15), ctx.n(300, 3000), res)
+    # degenerate edge: both ends at the same age must be skipped (zero variance), never projected
+    for t in (1.0, 123.456, 1e6):
+        res.evaluations += 1
+        r = call("mutation_edge_projection", [t, t])
+        if r[0] != "ok" or not all(x != x for x in r[1]):
+            o.viol("degenerate-edge-not-skipped", f"mutation_edge_projection({t}, {t}) returned {r} instead of skipping", "mutation_edge_projection", [t, t])
     res.rule = ("B: 38 translated kernels x generated argument vectors (log-uniform EP ranges, boundary points of every "
                 "_valid_* predicate, NaN/inf/0 specials), numba vs generated Lean at Float, bit-for-bit; non-trivial = "
                 "the real kernel returned at least one number. C: EP-range vectors (shape 1..1000 (+8% below 1), rates "
